@@ -32,6 +32,9 @@ SPEC = Spec(
          "move-and-append-to, mark-read-only) over 2-4 plog.LogRecordSlice handles, content and cap of every handle observed after every "
          "op; thorough adds all 14^4 programs over a 14-op alphabet; non-trivial = contains a copy/move whose destination had cap > len "
          "or had been filtered / re-sliced shorter before. "
+         "map (exact differential against the Lean heap model of pcommon.Map + Lean oracle): corpus of 4 scripted programs, then random "
+         "programs of 1-40 ops (PutInt/PutStr/PutEmpty/PutEmptyBytes+FromRaw, in-place ByteSlice.Append, Remove, RemoveIf, EnsureCapacity, "
+         "Clear, CopyTo, MoveTo, read-only) over 2-4 maps with keys from a pool of 6; non-trivial as for ptrslice. "
          "tree (plain-Go reference model, no Lean model): 5-45 random public ops at random positions of 2-3 randomly filled plog.Logs "
          "(copy-to / move-to / move-and-append-to between disjoint positions of the same kind at any level: resource/scope/record slices "
          "and messages, attribute maps, values, value slices; remove, remove-if, ensure-capacity, append, Set*/Put*/FromRaw, mark-read-only), "
@@ -42,12 +45,15 @@ SPEC = Spec(
         "Lean 4.33.0 kernel; axioms per theorem listed under axioms_per_theorem (subset of propext, Classical.choice, Quot.sound)",
         "hand-written heap model of the generated pointer-slice template (slice.go.tmpl, sliceOfPtrs) for elements with one scalar field, "
         "tied by exact differential (content + capacity of every handle after every op) on plog.LogRecordSlice on every run",
+        "hand-written heap model of pcommon.Map (map.go + the parts of value.go it uses) for empty / scalar / bytes values: bytes one-of "
+        "wrappers on the heap, scalar wrappers by value (every Set* allocates a new wrapper: watched by the differential and witness case 4); "
+        "tied by exact differential (entries in Range order + capacity of every handle after every op) on every run",
         "representation: a slice header owns its backing array, split at len into live pointers and an arbitrary tail; nil slice = cap 0",
         "Go's append growth policy is an input (capacity observed after the call)",
         "translator translators/cmd/pdatacensus (go/ast): classifies exported value-receiver methods of pdata wrapper types by a syntactic "
         "rule (writes through an expression containing `orig` / mutator name pattern / first statement is AssertMutable)",
-        "nested elements, attribute maps, values, value slices, primitive slices, message structs with optional/one-of fields, pmetric: NOT "
-        "modelled in Lean; checked by Go reference-model oracles only (tree, metric, witness harnesses); ptrace/pprofile share the templates "
+        "nested elements, nested maps/arrays inside values, pcommon.Slice, value slices, primitive slices, message structs with optional/one-of "
+        "fields, pmetric: NOT modelled in Lean; checked by Go reference-model oracles only (tree, metric, witness harnesses); ptrace/pprofile share the templates "
         "and are not exercised separately",
         "the driver re-tabulates the heap function after every step (extensionally equal on allocated ids)",
     ],
